@@ -187,7 +187,7 @@ func runC08(r *evid.Run) {
 	}
 	sort.Slice(filter, func(a, b int) bool { return filter[a][0]*1000+filter[a][1] < filter[b][0]*1000+filter[b][1] })
 	if len(filter) > 0 {
-		if !runLex(filter, fmt.Sprintf("SPECIFICATION Spec\nCONSTANT MaxLen = %d\nCHECK_DEADLOCK FALSE\n", r.Pick(7, 9))) {
+		if !runLex(filter, fmt.Sprintf("SPECIFICATION Spec\nCONSTANT MaxLen = %d\nCHECK_DEADLOCK FALSE\n", r.Pick(11, 12))) {
 			return
 		}
 	}
@@ -204,6 +204,14 @@ func runC08(r *evid.Run) {
 		}
 		return wits[a].word < wits[b].word
 	})
+	// enrich: other members of the same alphabet classes (e.g. other digits) are common words too
+	vrng := rand.New(rand.NewSource(r.Seed))
+	base := append([]wit{}, wits...)
+	for _, w := range base {
+		for _, v := range alpha.Variants(w.word, r.Pick(12, 60), vrng.Intn) {
+			wits = append(wits, wit{w.i, w.j, v})
+		}
+	}
 	r.Set("overlapping_pairs", int64(len(filter)))
 	r.Set("common_words_replayed", int64(len(wits)))
 	var overlapsBenign, overlapsReal int64
@@ -235,6 +243,14 @@ func runC08(r *evid.Run) {
 		overlapsReal++
 		r.Violate("ambiguous:"+ka+"|"+kb, fmt.Sprintf("the literal %q is claimed by two notations with different meanings: %s gives %s, %s gives %s", w.word, ka, da, kb, db),
 			map[string]interface{}{"literal": w.word, "matcher_a": ka, "meaning_a": da, "matcher_b": kb, "meaning_b": db})
+	}
+	if len(wits) > 0 {
+		var ex []string
+		for i := 0; i < len(wits) && i < 8; i++ {
+			w := wits[i*len(wits)/8]
+			ex = append(ex, fmt.Sprintf("%s | %s | %q", keys[w.i-1], keys[w.j-1], w.word))
+		}
+		r.Set("common_word_examples", ex)
 	}
 	r.Set("common_words_same_meaning", overlapsBenign)
 	r.Set("common_words_different_meaning", overlapsReal)
